@@ -31,6 +31,18 @@ Proof. unfold len. cbn [length]. lia. Qed.
 Lemma len_app {A} (l k : list A) : len (l ++ k) = len l + len k.
 Proof. unfold len. rewrite app_length. lia. Qed.
 
+Lemma added_sum_app l n : added_sum (l ++ [n]) = added_sum l + n.
+Proof. induction l as [|x l IH]; cbn [added_sum app]; lia. Qed.
+Lemma added_sum_cons n l : added_sum (n :: l) = n + added_sum l.
+Proof. reflexivity. Qed.
+Lemma drain_added_spec l cap : cap + added_sum l <= u32_max -> drain_added l cap = Some (cap + added_sum l).
+Proof.
+  revert cap. induction l as [|n l IH]; intros cap H; cbn [drain_added].
+  - f_equal. cbn. lia.
+  - rewrite added_sum_cons in H. destruct (N.leb_spec (cap + n) u32_max); [|lia].
+    rewrite IH by lia. f_equal. rewrite added_sum_cons. lia.
+Qed.
+
 Lemma sb_items_app q m : sb_items (q ++ [m]) = sb_items q ++ match m with SItem v => [v] | SClose => [] end.
 Proof. induction q as [|[v|] q IH]; cbn; [destruct m; reflexivity|rewrite IH; reflexivity|exact IH]. Qed.
 Lemma br_items_app q m : br_items (q ++ [m]) = br_items q ++ match m with BRItem v => [v] | _ => [] end.
@@ -148,9 +160,10 @@ Record Inv (cap : N) (w : world) : Prop := {
   i_cur : 1 <= rv_cur w /\ rv_cur w <= rv_max w /\ rv_max w <= u32_max /\
           (rv_cur w = rv_max w \/ 4 < rv_cur w);
   i_shape : bshape (br_ch w);
-  i_sc : sd_cap w + len (sb_items (q_sb w)) + bs_adds (q_bs w) <= default u32_max (scap_of (br_ch w));
+  i_sc : sd_cap w + added_sum (sd_added w) + len (sb_items (q_sb w)) + bs_adds (q_bs w)
+         <= default u32_max (scap_of (br_ch w));
   i_sc_eq : sd_open w = true -> forall sc rc, scap_of (br_ch w) = Some sc -> rcap_of (br_ch w) = Some rc ->
-            sd_cap w + len (sb_items (q_sb w)) + bs_adds (q_bs w) = sc;
+            sd_cap w + added_sum (sd_added w) + len (sb_items (q_sb w)) + bs_adds (q_bs w) = sc;
   i_rc : forall rc, rcap_of (br_ch w) = Some rc ->
          rc + len (br_items (q_br w)) + len (rv_queue w) + rb_adds (q_rb w) <= rv_cur w;
   i_rc_eq : rv_open w = true -> forall rc, rcap_of (br_ch w) = Some rc ->
@@ -180,3 +193,809 @@ Proof.
 Qed.
 
 End Owners.
+
+(* ---------------------------------------------------------------- every step preserves the invariant *)
+Section Steps.
+Variable cS cR : conn.
+Notation Inv := (Inv cS cR).
+
+Ltac dw w :=
+  destruct w as [scap sadded sopen sres ssent scl rmax rcur ropen rres rqueue rgot rcl qsb qrb qbs qbr b
+                 fcut fovf fpanic funexp].
+Ltac di I :=
+  destruct I as [Icut Iovf Ipan Iunx Imax Icur Ishape Isc Isceq Irc Irceq Isb Irb Ibs Ibr Isres Irres Iord];
+  cbn in Icut, Iovf, Ipan, Iunx, Imax, Icur, Ishape, Isc, Isceq, Irc, Irceq, Isb, Irb, Ibs, Ibr, Isres, Irres, Iord.
+
+
+(* lia on the arithmetic hypotheses only (the others make zify slow) *)
+Ltac prune :=
+  repeat match goal with
+  | H : sres_ok _ _ _ |- _ => clear H
+  | H : bs_final _ _ = _ |- _ => clear H
+  | H : br_final _ _ = _ |- _ => clear H
+  | H : ex _ |- _ => clear H
+  | H : sb_wf _ = _ |- _ => clear H
+  | H : rb_wf _ = _ |- _ => clear H
+  | H : sb_wf _ = _ /\ _ |- _ => clear H
+  | H : rb_wf _ = _ /\ _ |- _ => clear H
+  | H : _ -> sb_closing _ = _ |- _ => clear H
+  | H : _ -> rb_closing _ = _ |- _ => clear H
+  | H : _ -> _ = [] /\ _ |- _ => clear H
+  | H : @eq bool ?x _ |- _ => is_var x; clear H
+  | H : @eq (option N) _ _ |- _ => clear H
+  | H : @eq (list _) _ _ |- _ => clear H
+  | H : @eq cend _ _ |- _ => clear H
+  | H : _ \/ @eq cend _ _ |- _ => clear H
+  end.
+Ltac plia := prune; lia.
+
+Lemma scap_le0 b : bshape cS cR b -> default u32_max (scap_of b) <= u32_max.
+Proof. destruct b as [[[|so sc|] [|ro rc|]]|]; cbn; intros H; try contradiction; try lia. Qed.
+
+Lemma bd_refl (c : conn) : bool_decide (c = c) = true.
+Proof. apply bool_decide_eq_true_2. reflexivity. Qed.
+
+Lemma len_one {A} (x : A) : len [x] = 1.
+Proof. reflexivity. Qed.
+
+Ltac norm :=
+  rewrite ?sb_items_app, ?br_items_app, ?bs_adds_app, ?rb_adds_app, ?len_app, ?len_cons, ?len_one,
+    ?len_nil, ?app_nil_r in *.
+
+Lemma inv_absorb cap w : Inv cap w -> Inv cap (absorb w).
+Proof.
+  intros I. unfold absorb. dw w. di I. cbn.
+  pose proof (scap_le0 b Ishape) as Hle.
+  rewrite drain_added_spec by plia. cbn.
+  constructor; cbn; try assumption.
+  - cbn [added_sum]. plia.
+  - intros Ho sc rc E1 E2. specialize (Isceq Ho sc rc E1 E2). cbn [added_sum]. plia.
+Qed.
+
+Lemma inv_app_send cap w v : Inv cap w -> Inv cap (app_send w v).
+Proof.
+  intros I0. unfold app_send. pose proof (inv_absorb cap w I0) as I. set (w1 := absorb w) in *. clearbody w1.
+  clear I0 w. rename w1 into w. cbn zeta.
+  unfold ready_of, added_ended. dw w. di I. cbn.
+  destruct sopen; cbn; [|constructor; assumption].
+  destruct scl; cbn; try (constructor; assumption).
+  destruct (N.ltb_spec 0 scap); [|constructor; assumption].
+  destruct (N.eqb_spec scap 0); [plia|]. cbn.
+  destruct Isb as (Isb1 & Isb2 & Isb3). specialize (Isb2 eq_refl).
+  constructor; cbn; try assumption; norm.
+  - plia.
+  - intros _ sc rc E1 E2. specialize (Isceq eq_refl sc rc E1 E2). plia.
+  - split; [apply sb_wf_app; assumption|]. split; [intros _; rewrite sb_closing_app_item; assumption|].
+    intros E. destruct (Isb3 E) as [_ ?]. discriminate.
+  - destruct Iord as (rest & E & Er). exists (rest ++ [v]). split.
+    + rewrite E, <- !app_assoc. reflexivity.
+    + intros Ho. rewrite (Er Ho), <- !app_assoc. reflexivity.
+Qed.
+
+Lemma inv_app_close_s cap w : Inv cap w -> Inv cap (app_close_s w).
+Proof.
+  intros I. unfold app_close_s. dw w. di I. cbn.
+  destruct sopen; cbn; [|constructor; assumption].
+  destruct Isb as (Isb1 & Isb2 & Isb3). specialize (Isb2 eq_refl).
+  constructor; cbn; try assumption; norm.
+  - plia.
+  - discriminate.
+  - split; [apply sb_wf_app; assumption|]. split; [discriminate|].
+    intros E. destruct (Isb3 E) as [_ ?]. discriminate.
+  - destruct sres; cbn in *; destruct Isres as (? & ?); try discriminate. split; [reflexivity|assumption].
+  - destruct Iord as (rest & E & Er). exists rest. split; [exact E|]. intros Ho. rewrite (Er Ho). reflexivity.
+Qed.
+
+Lemma inv_app_close_r cap w : Inv cap w -> Inv cap (app_close_r w).
+Proof.
+  intros I. unfold app_close_r. dw w. di I. cbn.
+  destruct ropen; cbn; [|constructor; assumption].
+  destruct Irb as (Irb1 & Irb2 & Irb3). specialize (Irb2 eq_refl).
+  constructor; cbn; try assumption; norm.
+  - intros rc E. specialize (Irc rc E). plia.
+  - discriminate.
+  - split; [apply rb_wf_app; assumption|]. split; [discriminate|].
+    intros E. destruct (Irb3 E) as [_ ?]. discriminate.
+  - destruct rres; cbn in *; destruct Irres as (? & ?); try discriminate. split; [reflexivity|assumption].
+  - destruct Iord as (rest & E & Er). exists rest. split; [exact E|]. discriminate.
+Qed.
+
+Lemma inv_app_recv cap w : Inv cap w -> Inv cap (app_recv w).
+Proof.
+  intros I. unfold app_recv. dw w. di I. cbn. rewrite client_low_val.
+  destruct Icur as (C1 & C2 & C3 & C4).
+  destruct (N.eqb_spec rcur 0); [plia|]. destruct (N.ltb_spec rmax rcur); [plia|]. cbn.
+  destruct rqueue as [|v l]; [constructor; cbn; try assumption; repeat split; assumption|].
+  cbn. destruct Irb as (Irb1 & Irb2 & Irb3).
+  destruct Iord as (rest & E & Er).
+  assert (Hord : exists rest0, ssent = (rgot ++ [v]) ++ l ++ rest0 /\
+            (ropen = true -> rest0 = br_items qbr ++ sb_items qsb)).
+  { exists rest. split; [rewrite E, <- !app_assoc; reflexivity|exact Er]. }
+  destruct (N.leb_spec (rcur - 1) 4).
+  - destruct (N.leb_spec rmax (rcur - 1)); [plia|].
+    destruct (N.ltb_spec u32_max (rcur - 1 + (rmax - (rcur - 1)))); [plia|].
+    destruct ropen; cbn.
+    + destruct (N.eqb_spec (rcur - 1 + (rmax - (rcur - 1))) 0); [plia|].
+      destruct (N.ltb_spec rmax (rcur - 1 + (rmax - (rcur - 1)))); [plia|]. cbn.
+      constructor; cbn; try assumption; norm.
+      * plia.
+      * intros rc Ec. specialize (Irc rc Ec). norm. plia.
+      * intros _ rc Ec. specialize (Irceq eq_refl rc Ec). norm. plia.
+      * split; [apply rb_wf_app; auto|]. split; [intros _; rewrite rb_closing_app_add; auto|].
+        intros Ec. destruct (Irb3 Ec) as [_ ?]. discriminate.
+    + destruct (N.eqb_spec (rcur - 1 + (rmax - (rcur - 1))) 0); [plia|].
+      destruct (N.ltb_spec rmax (rcur - 1 + (rmax - (rcur - 1)))); [plia|]. cbn.
+      constructor; cbn; try assumption; norm.
+      * plia.
+      * intros rc Ec. specialize (Irc rc Ec). norm. plia.
+      * discriminate.
+      * split; [|split]; assumption.
+  - destruct (N.eqb_spec (rcur - 1) 0); [plia|]. destruct (N.ltb_spec rmax (rcur - 1)); [plia|]. cbn.
+    constructor; cbn; try assumption; norm.
+    + plia.
+    + intros rc Ec. specialize (Irc rc Ec). norm. plia.
+    + intros Ho rc Ec. specialize (Irceq Ho rc Ec). norm. plia.
+    + split; [|split]; assumption.
+Qed.
+
+Lemma scap_le b : bshape cS cR b -> default u32_max (scap_of b) <= u32_max.
+Proof. destruct b as [[[|so sc|] [|ro rc|]]|]; cbn; intros H; try contradiction; try plia. Qed.
+Lemma exp_s_2 b : bshape cS cR b -> exp_s b = 2%nat -> scap_of b = None.
+Proof. destruct b as [[[|so sc|] [|ro rc|]]|]; cbn; intros H; try contradiction; try discriminate; auto. Qed.
+Lemma exp_r_2 b : bshape cS cR b -> exp_r b = 2%nat -> rcap_of b = None.
+Proof. destruct b as [[[|so sc|] [|ro rc|]]|]; cbn; intros H; try contradiction; try discriminate; auto. Qed.
+
+Lemma sres_peer res open : sres_ok res open CEst -> sres_ok res open CPeer.
+Proof. destruct res; cbn; intros (? & ?); try (split; [assumption|discriminate]). destruct H0; discriminate. Qed.
+
+Lemma inv_client_s cap w : Inv cap w -> Inv cap (client_s w).
+Proof.
+  intros I. unfold client_s. dw w. di I. cbn.
+  destruct qbs as [|[n| |r] q]; [constructor; assumption| | |]; cbn; cbn [bs_adds] in Isc, Isceq.
+  - destruct scl; cbn in Ibs; try discriminate. cbn.
+    destruct sopen; cbn.
+    + constructor; cbn; try assumption; rewrite ?added_sum_app.
+      * plia.
+      * intros _ sc rc E1 E2. specialize (Isceq eq_refl sc rc E1 E2). plia.
+    + constructor; cbn; try assumption; [plia|discriminate].
+  - destruct scl; cbn in Ibs; try discriminate. cbn.
+    constructor; cbn; try assumption.
+    apply sres_peer. assumption.
+  - assert (Hq : (scl = CEst \/ scl = CPeer) /\ r = R3Ok /\ bs_final 2 q = Some (exp_s b)).
+    { destruct scl, r; cbn in Ibs; try discriminate; auto. }
+    destruct Hq as (Hcl & -> & Hq). apply bs_final_2 in Hq. destruct Hq as (-> & He).
+    pose proof (exp_s_2 b Ishape He) as Hnone.
+    destruct Isb as (Isb1 & Isb2 & Isb3). destruct (Isb3 Hnone) as (-> & ->).
+    destruct sres; cbn in Isres; cbn.
+    + destruct Isres; discriminate.
+    + assert (Hm : match scl with CGone => False | _ => True end) by (destruct Hcl; subst; exact I).
+      destruct scl; try contradiction; cbn;
+        (constructor; cbn; try assumption; repeat split; auto).
+    + destruct Isres as (_ & -> & _). destruct Hcl; discriminate.
+Qed.
+
+Lemma inv_client_r cap w : Inv cap w -> Inv cap (client_r w).
+Proof.
+  intros I. unfold client_r. dw w. di I. cbn.
+  destruct qbr as [|[v| |r] q]; [constructor; assumption| | |]; cbn; cbn [br_items] in Irc, Irceq, Iord.
+  - destruct rcl; cbn in Ibr; try discriminate. cbn.
+    destruct Iord as (rest & E & Er).
+    destruct ropen; cbn.
+    + constructor; cbn; try assumption; norm.
+      * intros rc Ec. specialize (Irc rc Ec). norm. plia.
+      * intros _ rc Ec. specialize (Irceq eq_refl rc Ec). norm. plia.
+      * exists (br_items q ++ sb_items qsb). split; [|reflexivity].
+        rewrite E, (Er eq_refl). cbn. rewrite <- !app_assoc. reflexivity.
+    + constructor; cbn; try assumption; norm.
+      * intros rc Ec. specialize (Irc rc Ec). norm. plia.
+      * discriminate.
+      * exists rest. split; [exact E|discriminate].
+  - destruct rcl; cbn in Ibr; try discriminate. cbn.
+    constructor; cbn; try assumption.
+    apply sres_peer. assumption.
+  - assert (Hq : (rcl = CEst \/ rcl = CPeer) /\ r = R3Ok /\ br_final 2 q = Some (exp_r b)).
+    { destruct rcl, r; cbn in Ibr; try discriminate; auto. }
+    destruct Hq as (Hcl & -> & Hq). apply br_final_2 in Hq. destruct Hq as (-> & He).
+    pose proof (exp_r_2 b Ishape He) as Hnone.
+    destruct Irb as (Irb1 & Irb2 & Irb3). destruct (Irb3 Hnone) as (-> & ->).
+    destruct rres; cbn in Irres; cbn.
+    + destruct Irres; discriminate.
+    + assert (Hm : match rcl with CGone => False | _ => True end) by (destruct Hcl; subst; exact I).
+      destruct rcl; try contradiction; cbn;
+        (constructor; cbn; try assumption; repeat split; auto).
+    + destruct Irres as (_ & -> & _). destruct Hcl; discriminate.
+Qed.
+
+Lemma send_item_both sc rc :
+  chan_send_item {| ch_s := Claimed cS sc; ch_r := Claimed cR rc |} cS =
+  if sc =? 0 then (if negb (rc =? 0) then ItemPanic 33 else ItemExhausted) else
+  if rc =? 0 then ItemPanic 34 else
+  let add := if (sc - 1 <=? 4) && (sc - 1 <? rc - 1) then Some (rc - 1 - (sc - 1)) else None in
+  ItemForward {| ch_s := Claimed cS (match add with Some _ => rc - 1 | None => sc - 1 end);
+                 ch_r := Claimed cR (rc - 1) |} cR add.
+Proof. unfold chan_send_item. cbn. rewrite bd_refl. reflexivity. Qed.
+
+Lemma add_capacity_r sst rc n :
+  chan_add_capacity {| ch_s := sst; ch_r := Claimed cR rc |} cR n =
+  if n =? 0 then AddIgnore else
+  if rc + n <=? u32_max then
+    match sst with
+    | Claimed so sc =>
+        if sc <=? 4 then
+          if negb (sc <? rc + n) then AddPanic 32
+          else AddUpdate {| ch_s := Claimed so (rc + n); ch_r := Claimed cR (rc + n) |} (Some (so, rc + n - sc))
+        else AddUpdate {| ch_s := sst; ch_r := Claimed cR (rc + n) |} None
+    | _ => AddUpdate {| ch_s := sst; ch_r := Claimed cR (rc + n) |} None
+    end
+  else AddOverflow.
+Proof.
+  unfold chan_add_capacity, channel_cap_add. cbn. rewrite bd_refl. cbn.
+  destruct (n =? 0); [reflexivity|]. destruct (rc + n <=? u32_max); [|reflexivity].
+  destruct sst; reflexivity.
+Qed.
+
+Lemma close_result_s sc rst : chan_close_result {| ch_s := Claimed cS sc; ch_r := rst |} cS ESender = R3Ok.
+Proof. unfold chan_close_result. cbn. rewrite bd_refl. reflexivity. Qed.
+Lemma close_result_r rc sst : chan_close_result {| ch_s := sst; ch_r := Claimed cR rc |} cR EReceiver = R3Ok.
+Proof. unfold chan_close_result. cbn. rewrite bd_refl. reflexivity. Qed.
+
+Arguments chan_send_item : simpl never.
+Arguments chan_add_capacity : simpl never.
+Arguments chan_close_result : simpl never.
+
+Lemma inv_broker_s cap w : Inv cap w -> Inv cap (broker_s cS w).
+Proof.
+  intros I. unfold broker_s. dw w. di I. cbn.
+  destruct qsb as [|[v|] q]; [constructor; assumption| |]; cbn;
+    cbn [sb_items sb_wf sb_closing] in Isc, Isceq, Isb, Iord; norm;
+    destruct Isb as (Isb1 & Isb2 & Isb3).
+  - (* SendItem *)
+    unfold b_send_item. cbn.
+    destruct b as [[[|so sc|] [|ro rc|]]|]; cbn in Ishape; try contradiction;
+      try (destruct (Isb3 eq_refl); discriminate).
+    + (* both ends claimed *)
+      destruct Ishape as (-> & -> & S1 & S2 & S3). rewrite send_item_both. cbn in Isc.
+      destruct (N.eqb_spec sc 0); [exfalso; plia|]. destruct (N.eqb_spec rc 0); [exfalso; plia|].
+      cbn zeta.
+      destruct Iord as (rest & E & Er).
+      assert (Hord : exists rest0, ssent = rgot ++ rqueue ++ rest0 /\
+                (ropen = true -> rest0 = br_items (qbr ++ [BRItem v]) ++ sb_items q)).
+      { exists rest. split; [exact E|]. intros Ho. rewrite (Er Ho). norm.
+        rewrite <- !app_assoc. reflexivity. }
+      destruct ((sc - 1 <=? 4) && (sc - 1 <? rc - 1)) eqn:Eadd; cbn.
+      * constructor; cbn; try assumption; norm.
+        -- repeat split; plia.
+        -- plia.
+        -- intros Ho sc' rc' [= <-] [= <-]. specialize (Isceq Ho sc rc eq_refl eq_refl). plia.
+        -- intros rc' [= <-]. specialize (Irc rc eq_refl). plia.
+        -- intros Ho rc' [= <-]. specialize (Irceq Ho rc eq_refl). plia.
+        -- repeat split; auto; discriminate.
+        -- destruct Irb as (? & ? & ?). repeat split; auto; discriminate.
+        -- rewrite (bs_final_app _ _ _ _ Ibs). reflexivity.
+        -- rewrite (br_final_app _ _ _ _ Ibr). reflexivity.
+      * constructor; cbn; try assumption; norm.
+        -- repeat split; plia.
+        -- plia.
+        -- intros Ho sc' rc' [= <-] [= <-]. specialize (Isceq Ho sc rc eq_refl eq_refl). plia.
+        -- intros rc' [= <-]. specialize (Irc rc eq_refl). plia.
+        -- intros Ho rc' [= <-]. specialize (Irceq Ho rc eq_refl). plia.
+        -- repeat split; auto; discriminate.
+        -- destruct Irb as (? & ? & ?). repeat split; auto; discriminate.
+        -- rewrite (br_final_app _ _ _ _ Ibr). reflexivity.
+    + (* receiver closed at the broker: the item is ignored *)
+      destruct Ishape as (-> & S1). unfold chan_send_item. cbn. rewrite bd_refl. cbn.
+      destruct Irb as (Irb1 & Irb2 & Irb3). destruct (Irb3 eq_refl) as (-> & ->).
+      destruct Iord as (rest & E & Er).
+      constructor; cbn; try assumption.
+      * auto.
+      * cbn in Isc. plia.
+      * discriminate.
+      * repeat split; auto; discriminate.
+      * repeat split; auto.
+      * exists rest. split; [exact E|discriminate].
+  - (* CloseChannelEnd(Sender) *)
+    destruct q; [|discriminate]. unfold b_close. cbn.
+    assert (Hso : sopen = false) by (destruct sopen; [discriminate (Isb2 eq_refl)|reflexivity]). subst sopen.
+    destruct b as [[[|so sc|] [|ro rc|]]|]; cbn in Ishape; try contradiction;
+      try (destruct (Isb3 eq_refl); discriminate).
+    + destruct Ishape as (-> & -> & S1 & S2 & S3). rewrite close_result_s. cbn.
+      constructor; cbn; try assumption; norm.
+      * auto.
+      * cbn in Isc. plia.
+      * discriminate.
+      * intros rc' [= <-]. specialize (Irc rc eq_refl). plia.
+      * intros Ho rc' [= <-]. specialize (Irceq Ho rc eq_refl). plia.
+      * repeat split; auto.
+      * rewrite (bs_final_app _ _ _ _ Ibs). reflexivity.
+      * rewrite (br_final_app _ _ _ _ Ibr). reflexivity.
+      * exact Iord.
+    + destruct Ishape as (-> & S1). rewrite close_result_s. cbn.
+      constructor; cbn; try assumption; norm.
+      * exact I.
+      * cbn in Isc. plia.
+      * discriminate.
+      * repeat split; auto.
+      * rewrite (bs_final_app _ _ _ _ Ibs). reflexivity.
+Qed.
+
+Lemma inv_broker_r cap w : Inv cap w -> Inv cap (broker_r cR w).
+Proof.
+  intros I. unfold broker_r. dw w. di I. cbn.
+  destruct qrb as [|[n|] q]; [constructor; assumption| |]; cbn;
+    cbn [rb_adds rb_wf rb_closing] in Irc, Irceq, Irb; norm;
+    destruct Irb as (Irb1 & Irb2 & Irb3).
+  - (* AddChannelCapacity *)
+    unfold b_add_capacity. cbn. pose proof Icur as (C1 & C2 & C3 & C4).
+    destruct b as [[[|so sc|] [|ro rc|]]|]; cbn in Ishape; try contradiction;
+      try (destruct (Irb3 eq_refl); discriminate).
+    + destruct Ishape as (-> & -> & S1 & S2 & S3). rewrite add_capacity_r.
+      pose proof (Irc rc eq_refl) as Hrc.
+      destruct (N.eqb_spec n 0) as [->|Hn].
+      { constructor; cbn; try assumption; [repeat split; auto|repeat split; auto; discriminate]. }
+      destruct (N.leb_spec (rc + n) u32_max); [|exfalso; plia].
+      destruct (N.leb_spec sc 4); cbn.
+      * destruct (N.ltb_spec sc (rc + n)); [|exfalso; plia]. cbn. cbn in Isc.
+        constructor; cbn; try assumption; norm.
+        -- repeat split; plia.
+        -- plia.
+        -- intros Ho sc' rc' [= <-] [= <-]. specialize (Isceq Ho sc rc eq_refl eq_refl). plia.
+        -- intros rc' [= <-]. plia.
+        -- intros Ho rc' [= <-]. specialize (Irceq Ho rc eq_refl). plia.
+        -- destruct Isb as (? & ? & ?). repeat split; auto; discriminate.
+        -- repeat split; auto; discriminate.
+        -- rewrite (bs_final_app _ _ _ _ Ibs). reflexivity.
+      * cbn in Isc.
+        constructor; cbn; try assumption; norm.
+        -- repeat split; plia.
+        -- intros Ho sc' rc' [= <-] [= <-]. specialize (Isceq Ho sc rc eq_refl eq_refl).
+           (* the sender's balance holds only at or below the low-water mark: above it the broker
+              keeps the grant back *) plia.
+        -- intros rc' [= <-]. plia.
+        -- intros Ho rc' [= <-]. specialize (Irceq Ho rc eq_refl). plia.
+        -- repeat split; auto; discriminate.
+    + destruct Ishape as (-> & S1). rewrite add_capacity_r.
+      pose proof (Irc rc eq_refl) as Hrc.
+      destruct (N.eqb_spec n 0) as [->|Hn].
+      { constructor; cbn; try assumption; [repeat split; auto|repeat split; auto; discriminate]. }
+      destruct (N.leb_spec (rc + n) u32_max); [|exfalso; plia]. cbn.
+      constructor; cbn; try assumption; norm.
+      * split; [reflexivity|plia].
+      * intros _ sc' rc' [=].
+      * intros rc' [= <-]. plia.
+      * intros Ho rc' [= <-]. specialize (Irceq Ho rc eq_refl). plia.
+      * repeat split; auto; discriminate.
+  - (* CloseChannelEnd(Receiver) *)
+    destruct q; [|discriminate]. unfold b_close. cbn.
+    assert (Hro : ropen = false) by (destruct ropen; [discriminate (Irb2 eq_refl)|reflexivity]). subst ropen.
+    destruct b as [[[|so sc|] [|ro rc|]]|]; cbn in Ishape; try contradiction;
+      try (destruct (Irb3 eq_refl); discriminate).
+    + destruct Ishape as (-> & -> & S1 & S2 & S3). rewrite close_result_r. cbn.
+      constructor; cbn; try assumption; norm.
+      * split; [reflexivity|plia].
+      * cbn in Isc. plia.
+      * intros _ sc' rc' _ [=].
+      * intros rc' [=].
+      * discriminate.
+      * repeat split; auto.
+      * rewrite (bs_final_app _ _ _ _ Ibs). reflexivity.
+      * rewrite (br_final_app _ _ _ _ Ibr). reflexivity.
+      * destruct Iord as (rest & E & Er). exists rest. split; [exact E|discriminate].
+    + destruct Ishape as (-> & S1). rewrite close_result_r. cbn.
+      constructor; cbn; try assumption; norm.
+      * exact I.
+      * intros _ sc' rc' [=].
+      * intros rc' [=].
+      * discriminate.
+      * repeat split; auto.
+      * rewrite (br_final_app _ _ _ _ Ibr). reflexivity.
+      * destruct Iord as (rest & E & Er). exists rest. split; [exact E|discriminate].
+Qed.
+End Steps.
+
+(* ---------------------------------------------------------------- schedules, frames, draining, theorems *)
+Section Main.
+Variable cS cR : conn.
+Notation Inv := (Inv cS cR).
+Notation wstep := (wstep cS cR).
+Notation wrun := (wrun cS cR).
+Notation reachable := (reachable cS cR).
+Notation winit := (winit cS cR).
+
+Lemma inv_step cap w a : Inv cap w -> Inv cap (wstep w a).
+Proof.
+  destruct a; cbn [Credit.wstep]; auto using inv_app_send, inv_absorb, inv_app_recv, inv_app_close_s, inv_app_close_r,
+    inv_broker_s, inv_broker_r, inv_client_s, inv_client_r.
+Qed.
+
+Lemma inv_reachable cap w : 1 <= cap -> cap <= u32_max -> reachable cap w -> Inv cap w.
+Proof. intros H1 H2 R. induction R; [apply inv_init; assumption|apply inv_step; assumption]. Qed.
+
+Lemma inv_run cap w sch : Inv cap w -> Inv cap (wrun w sch).
+Proof. revert w. induction sch as [|a sch IH]; intros w I; cbn; [exact I|apply IH, inv_step, I]. Qed.
+
+Lemma reachable_run cap w sch : reachable cap w -> reachable cap (wrun w sch).
+Proof. revert w. induction sch as [|a sch IH]; intros w R; cbn; [exact R|apply IH; constructor; exact R]. Qed.
+
+Lemma reachable_iff cap w : reachable cap w <-> exists sch, w = wrun (winit cap) sch.
+Proof.
+  split.
+  - induction 1 as [|w a R (sch & ->)]; [exists []; reflexivity|].
+    exists (sch ++ [a]). unfold Credit.wrun. rewrite fold_left_app. reflexivity.
+  - intros (sch & ->). apply reachable_run. constructor.
+Qed.
+
+Lemma wrun_app w s1 s2 : wrun w (s1 ++ s2) = wrun (wrun w s1) s2.
+Proof. unfold Credit.wrun. apply fold_left_app. Qed.
+
+(* ---------- frames: which fields a step leaves alone ---------- *)
+Ltac crush := repeat (first [progress cbn | case_match]); repeat split; try reflexivity.
+
+Lemma frame_broker_s w :
+  let w' := broker_s cS w in
+  q_sb w' = tl (q_sb w) /\ sd_open w' = sd_open w /\ rv_open w' = rv_open w /\ sd_sent w' = sd_sent w /\
+  q_rb w' = q_rb w /\ rv_queue w' = rv_queue w /\ rv_got w' = rv_got w.
+Proof. unfold broker_s, b_send_item, b_close, b_remove_end, panic. destruct w; cbn. crush. Qed.
+
+Lemma frame_client_r w :
+  let w' := client_r w in
+  q_br w' = tl (q_br w) /\ sd_open w' = sd_open w /\ rv_open w' = rv_open w /\ sd_sent w' = sd_sent w /\
+  q_sb w' = q_sb w /\ q_rb w' = q_rb w /\ q_bs w' = q_bs w /\ rv_got w' = rv_got w.
+Proof. unfold client_r, unexpected, panic. destruct w; cbn. crush. Qed.
+
+Lemma frame_client_s w :
+  let w' := client_s w in
+  q_bs w' = tl (q_bs w) /\ sd_open w' = sd_open w /\ rv_open w' = rv_open w /\ sd_sent w' = sd_sent w /\
+  q_sb w' = q_sb w /\ q_rb w' = q_rb w /\ q_br w' = q_br w /\ rv_queue w' = rv_queue w /\ rv_got w' = rv_got w.
+Proof. unfold client_s, unexpected, panic. destruct w; cbn. crush. Qed.
+
+(* the polls of the sender move announcements from the stream into the capacity *)
+Lemma frame_absorb cap w : Inv cap w ->
+  let w' := absorb w in
+  sd_added w' = [] /\ sd_cap w' = sd_cap w + added_sum (sd_added w) /\
+  sd_open w' = sd_open w /\ rv_open w' = rv_open w /\ sd_sent w' = sd_sent w /\
+  q_sb w' = q_sb w /\ q_rb w' = q_rb w /\ q_bs w' = q_bs w /\ q_br w' = q_br w /\ rv_queue w' = rv_queue w /\
+  rv_got w' = rv_got w /\ br_ch w' = br_ch w /\ sd_cl w' = sd_cl w.
+Proof.
+  intros I. pose proof (i_sc _ _ _ _ I) as H. pose proof (scap_le0 cS cR _ (i_shape _ _ _ _ I)) as Hle.
+  unfold absorb. rewrite drain_added_spec by lia. destruct w; cbn. repeat split; reflexivity.
+Qed.
+
+(* poll_next_serialized does not touch the sender's side nor the downward links; under the
+   invariant it takes the head of the queue *)
+Lemma frame_app_recv cap w : Inv cap w ->
+  let w' := app_recv w in
+  rv_queue w' = tl (rv_queue w) /\ rv_got w' = rv_got w ++ firstn 1 (rv_queue w) /\
+  sd_open w' = sd_open w /\ rv_open w' = rv_open w /\ sd_sent w' = sd_sent w /\
+  q_sb w' = q_sb w /\ q_br w' = q_br w.
+Proof.
+  intros I. pose proof (i_cur _ _ _ _ I) as (C1 & C2 & C3 & C4). pose proof (i_pan _ _ _ _ I) as Hp.
+  unfold app_recv, panic. rewrite client_low_val. destruct w; cbn in *. subst f_panic.
+  destruct (N.eqb_spec rv_cur 0); [lia|]. destruct (N.ltb_spec rv_max rv_cur); [lia|]. cbn.
+  destruct rv_queue as [|v l]; cbn; [rewrite app_nil_r; repeat split; reflexivity|].
+  destruct (N.leb_spec (rv_cur - 1) 4); cbn.
+  - destruct (N.leb_spec rv_max (rv_cur - 1)); [lia|].
+    destruct rv_open; cbn.
+    + destruct (N.ltb_spec u32_max (rv_cur - 1 + (rv_max - (rv_cur - 1)))); [lia|]. cbn.
+      destruct (N.eqb_spec (rv_cur - 1 + (rv_max - (rv_cur - 1))) 0); [lia|].
+      destruct (N.ltb_spec rv_max (rv_cur - 1 + (rv_max - (rv_cur - 1)))); [lia|]. cbn.
+      repeat split; reflexivity.
+    + destruct (N.ltb_spec u32_max (rv_cur - 1 + (rv_max - (rv_cur - 1)))); [lia|]. cbn.
+      destruct (N.eqb_spec (rv_cur - 1 + (rv_max - (rv_cur - 1))) 0); [lia|].
+      destruct (N.ltb_spec rv_max (rv_cur - 1 + (rv_max - (rv_cur - 1)))); [lia|]. cbn.
+      repeat split; reflexivity.
+  - destruct (N.eqb_spec (rv_cur - 1) 0); [lia|]. destruct (N.ltb_spec rv_max (rv_cur - 1)); [lia|]. cbn.
+    repeat split; reflexivity.
+Qed.
+
+(* while the receiver is open its link to the broker carries grants only, and the broker's
+   handling of a grant does not touch the link to the receiver *)
+Lemma frame_broker_r cap w : Inv cap w -> rv_open w = true ->
+  let w' := broker_r cR w in
+  q_rb w' = tl (q_rb w) /\ sd_open w' = sd_open w /\ rv_open w' = rv_open w /\ sd_sent w' = sd_sent w /\
+  q_sb w' = q_sb w /\ q_br w' = q_br w /\ rv_queue w' = rv_queue w /\ rv_got w' = rv_got w.
+Proof.
+  intros I Ho. pose proof (i_rb _ _ _ _ I) as (_ & Hc & _). specialize (Hc Ho).
+  unfold broker_r, b_add_capacity, b_remove_end, panic. destruct w; cbn in *.
+  destruct q_rb as [|[n|] q]; cbn in *; [repeat split; reflexivity| |discriminate].
+  crush.
+Qed.
+
+(* ---------- draining one queue ---------- *)
+Lemma drain_generic (P : world -> Prop) (a : act) (m : world -> nat) :
+  (forall w, P w -> m w <> O -> P (wstep w a) /\ m (wstep w a) = pred (m w)) ->
+  forall w, P w -> exists sch, P (wrun w sch) /\ m (wrun w sch) = O.
+Proof.
+  intros Hstep w. remember (m w) as k eqn:Ek. revert w Ek.
+  induction k as [|k IH]; intros w Ek Pw; [exists []; auto|].
+  destruct (Hstep w Pw) as (P' & E'); [rewrite <- Ek; discriminate|].
+  destruct (IH (wstep w a)) as (sch & Ps & Es); [rewrite E', <- Ek; reflexivity|exact P'|].
+  exists (a :: sch). split; assumption.
+Qed.
+
+Definition both_open (w : world) : Prop := sd_open w = true /\ rv_open w = true.
+
+Lemma drain_all cap w : Inv cap w -> both_open w ->
+  exists sch, let w' := wrun w sch in
+    Inv cap w' /\ both_open w' /\ quiet w' /\ sd_sent w' = sd_sent w.
+Proof.
+  intros I (Hs & Hr). set (s0 := sd_sent w).
+  pose (P1 := fun x => Inv cap x /\ both_open x /\ sd_sent x = s0).
+  pose (P2 := fun x => P1 x /\ q_sb x = []).
+  pose (P3 := fun x => P2 x /\ q_br x = []).
+  pose (P4 := fun x => P3 x /\ rv_queue x = []).
+  pose (P5 := fun x => P4 x /\ q_rb x = []).
+  assert (H1 : P1 w) by (split; [exact I|split; [split; assumption|reflexivity]]).
+  (* 1: the sender's link to the broker *)
+  destruct (drain_generic P1 BrokerS (fun x => length (q_sb x))) with (w := w) as (s1 & Q1 & E1); [|exact H1|].
+  { intros x (Ix & (Hxs & Hxr) & Hx) Hm. cbn [Credit.wstep].
+    pose proof (frame_broker_s x) as (F1 & F2 & F3 & F4 & _). cbn zeta in *.
+    split; [|rewrite F1; destruct (q_sb x); reflexivity].
+    split; [apply (inv_step cap x BrokerS Ix)|]. split; [split; congruence|congruence]. }
+  apply length_zero_iff_nil in E1.
+  (* 2: the broker's link to the receiver *)
+  destruct (drain_generic P2 ClientR (fun x => length (q_br x))) with (w := wrun w s1) as (s2 & Q2 & E2);
+    [|split; assumption|].
+  { intros x ((Ix & (Hxs & Hxr) & Hx) & Hq) Hm. cbn [Credit.wstep].
+    pose proof (frame_client_r x) as (F1 & F2 & F3 & F4 & F5 & _). cbn zeta in *.
+    split; [|rewrite F1; destruct (q_br x); reflexivity].
+    split; [|congruence]. split; [apply (inv_step cap x ClientR Ix)|]. split; [split; congruence|congruence]. }
+  apply length_zero_iff_nil in E2. rewrite <- wrun_app in *.
+  (* 3: the receiver's queue *)
+  destruct (drain_generic P3 ARecv (fun x => length (rv_queue x))) with (w := wrun w (s1 ++ s2)) as (s3 & Q3 & E3);
+    [|split; assumption|].
+  { intros x (((Ix & (Hxs & Hxr) & Hx) & Hq) & Hq2) Hm. cbn [Credit.wstep].
+    pose proof (frame_app_recv cap x Ix) as (F1 & _ & F2 & F3 & F4 & F5 & F6). cbn zeta in *.
+    split; [|rewrite F1; destruct (rv_queue x); reflexivity].
+    split; [|congruence]. split; [|congruence].
+    split; [apply (inv_step cap x ARecv Ix)|]. split; [split; congruence|congruence]. }
+  apply length_zero_iff_nil in E3. rewrite <- wrun_app in *.
+  (* 4: the receiver's link to the broker *)
+  destruct (drain_generic P4 BrokerR (fun x => length (q_rb x))) with (w := wrun w ((s1 ++ s2) ++ s3)) as (s4 & Q4 & E4);
+    [|split; assumption|].
+  { intros x ((((Ix & (Hxs & Hxr) & Hx) & Hq) & Hq2) & Hq3) Hm. cbn [Credit.wstep].
+    pose proof (frame_broker_r cap x Ix Hxr) as (F1 & F2 & F3 & F4 & F5 & F6 & F7 & _). cbn zeta in *.
+    split; [|rewrite F1; destruct (q_rb x); reflexivity].
+    split; [|congruence]. split; [|congruence]. split; [|congruence].
+    split; [apply (inv_step cap x BrokerR Ix)|]. split; [split; congruence|congruence]. }
+  apply length_zero_iff_nil in E4. rewrite <- wrun_app in *.
+  (* 5: the broker's link to the sender *)
+  destruct (drain_generic P5 ClientS (fun x => length (q_bs x))) with (w := wrun w (((s1 ++ s2) ++ s3) ++ s4)) as (s5 & Q5 & E5);
+    [|split; assumption|].
+  { intros x (((((Ix & (Hxs & Hxr) & Hx) & Hq) & Hq2) & Hq3) & Hq4) Hm. cbn [Credit.wstep].
+    pose proof (frame_client_s x) as (F1 & F2 & F3 & F4 & F5 & F6 & F7 & F8 & _). cbn zeta in *.
+    split; [|rewrite F1; destruct (q_bs x); reflexivity].
+    split; [|congruence]. split; [|congruence]. split; [|congruence]. split; [|congruence].
+    split; [apply (inv_step cap x ClientS Ix)|]. split; [split; congruence|congruence]. }
+  apply length_zero_iff_nil in E5. rewrite <- wrun_app in *.
+  (* 6: the sender polls: the announcements go into its capacity *)
+  exists (((((s1 ++ s2) ++ s3) ++ s4) ++ s5) ++ [APollReady]). cbn zeta. rewrite wrun_app.
+  set (x := wrun w ((((s1 ++ s2) ++ s3) ++ s4) ++ s5)) in *.
+  destruct Q5 as (((((Ix & (Hxs & Hxr) & Hx) & Hq) & Hq2) & Hq3) & Hq4).
+  change (wrun x [APollReady]) with (absorb x).
+  pose proof (frame_absorb cap x Ix) as (F0 & _ & F1 & F2 & F3 & F4 & F5 & F6 & F7 & F8 & _). cbn zeta in *.
+  split; [apply inv_absorb; exact Ix|]. split; [split; congruence|]. split; [|congruence].
+  unfold quiet. repeat split; congruence.
+Qed.
+
+Ltac dw w :=
+  destruct w as [scap sadded sopen sres ssent scl rmax rcur ropen rres rqueue rgot rcl qsb qrb qbs qbr b
+                 fcut fovf fpanic funexp].
+Ltac di I :=
+  destruct I as [Icut Iovf Ipan Iunx Imax Icur Ishape Isc Isceq Irc Irceq Isb Irb Ibs Ibr Isres Irres Iord];
+  cbn in Icut, Iovf, Ipan, Iunx, Imax, Icur, Ishape, Isc, Isceq, Irc, Irceq, Isb, Irb, Ibs, Ibr, Isres, Irres, Iord.
+
+(* with both ends open and nothing in flight, the broker's entry has both ends claimed, the three
+   credit counters agree where they must, and the sender is ready *)
+Lemma quiet_state cap w : Inv cap w -> both_open w -> quiet w ->
+  exists sc rc, br_ch w = Some {| ch_s := Claimed cS sc; ch_r := Claimed cR rc |} /\
+    sd_cap w = sc /\ rv_cur w = rc /\ 1 <= sc /\ sc <= rc /\ sd_cl w = CEst /\ rv_cl w = CEst /\
+    sd_sent w = rv_got w.
+Proof.
+  intros I (Hs & Hr) (Q1 & Q2 & Q3 & Q4 & Q5 & Q6). dw w. cbn in Hs, Hr, Q1, Q2, Q3, Q4, Q5, Q6. subst. di I.
+  destruct Isb as (_ & _ & Isb3). destruct Irb as (_ & _ & Irb3).
+  destruct b as [[[|so sc|] [|ro rc|]]|]; cbn in Ishape, Isb3, Irb3, Isceq, Irceq; try contradiction;
+    try (destruct (Isb3 eq_refl); discriminate); try (destruct (Irb3 eq_refl); discriminate).
+  destruct Ishape as (-> & -> & S1 & S2 & S3).
+  specialize (Isceq eq_refl sc rc eq_refl eq_refl). specialize (Irceq eq_refl rc eq_refl).
+  rewrite ?len_nil in *. cbn [bs_adds rb_adds added_sum len length N.of_nat] in *.
+  exists sc, rc. cbn. split; [reflexivity|].
+  destruct scl; cbn in Ibs; try discriminate. destruct rcl; cbn in Ibr; try discriminate.
+  destruct Iord as (rest & E & Er). rewrite (Er eq_refl) in E. cbn in E. rewrite !app_nil_r in E.
+  destruct Icur as (C1 & C2 & C3 & C4).
+  clear Ibs Ibr Isres Irres Er Isb3 Irb3 Icut Iovf Ipan Iunx Isc Irc.
+  repeat split; try reflexivity; try assumption; lia.
+Qed.
+
+Theorem quiet_ready cap w : Inv cap w -> both_open w -> quiet w -> send_ready w = RdOk.
+Proof.
+  intros I Ho Q. destruct (quiet_state cap w I Ho Q) as (sc & rc & _ & E1 & _ & H1 & _ & E2 & _).
+  pose proof (frame_absorb cap w I) as (_ & F1 & F2 & _ & _ & _ & _ & _ & _ & _ & _ & _ & F3). cbn zeta in *.
+  destruct Ho as (Hs & _). destruct Q as (_ & _ & _ & _ & _ & Q6).
+  unfold send_ready, ready_of, added_ended. rewrite F1, F2, F3, Hs, E2, E1, Q6. cbn [added_sum negb orb].
+  destruct (N.ltb_spec 0 (sc + 0)); [reflexivity|lia].
+Qed.
+
+Arguments chan_send_item : simpl never.
+
+Lemma step_send_quiet w v : sd_added w = [] -> sd_open w = true -> sd_cl w = CEst -> 1 <= sd_cap w ->
+  let w1 := app_send w v in
+  q_sb w1 = q_sb w ++ [SItem v] /\ q_br w1 = q_br w /\ rv_queue w1 = rv_queue w /\ rv_got w1 = rv_got w /\
+  br_ch w1 = br_ch w /\ rv_cl w1 = rv_cl w /\ rv_open w1 = rv_open w.
+Proof.
+  dw w. cbn. intros -> -> -> H. unfold app_send, absorb, ready_of, added_ended. cbn.
+  destruct (N.ltb_spec 0 scap); [|lia]. destruct (N.eqb_spec scap 0); [lia|]. cbn.
+  repeat split; reflexivity.
+Qed.
+
+Lemma step_broker_quiet w v sc rc :
+  br_ch w = Some {| ch_s := Claimed cS sc; ch_r := Claimed cR rc |} -> 1 <= sc -> sc <= rc ->
+  q_sb w = [SItem v] ->
+  let w2 := broker_s cS w in
+  q_br w2 = q_br w ++ [BRItem v] /\ rv_queue w2 = rv_queue w /\ rv_got w2 = rv_got w /\
+  rv_cl w2 = rv_cl w /\ rv_open w2 = rv_open w.
+Proof.
+  dw w. cbn. intros -> H1 H2 ->. unfold broker_s, b_send_item. cbn. rewrite send_item_both.
+  destruct (N.eqb_spec sc 0); [lia|]. destruct (N.eqb_spec rc 0); [lia|]. cbn zeta.
+  destruct ((sc - 1 <=? 4) && (sc - 1 <? rc - 1)); cbn; repeat split; reflexivity.
+Qed.
+
+Lemma step_client_quiet w v : q_br w = [BRItem v] -> rv_cl w = CEst -> rv_open w = true ->
+  let w3 := client_r w in rv_queue w3 = rv_queue w ++ [v] /\ rv_got w3 = rv_got w.
+Proof. dw w. cbn. intros -> -> ->. unfold client_r. cbn. split; reflexivity. Qed.
+
+Lemma quiet_deliver cap w v : Inv cap w -> both_open w -> quiet w ->
+  rv_got (wrun w [ASend v; BrokerS; ClientR; ARecv]) = rv_got w ++ [v].
+Proof.
+  intros I Ho Q.
+  destruct (quiet_state cap w I Ho Q) as (sc & rc & Eb & E1 & E2 & H1 & H2 & E3 & E4 & _).
+  destruct Ho as (Hs & Hr). destruct Q as (Q1 & Q2 & Q3 & Q4 & Q5 & Q6).
+  set (w1 := app_send w v). set (w2 := broker_s cS w1). set (w3 := client_r w2).
+  assert (E : wrun w [ASend v; BrokerS; ClientR; ARecv] = app_recv w3) by reflexivity.
+  rewrite E. clear E.
+  pose proof (step_send_quiet w v Q6 Hs E3 ltac:(rewrite E1; exact H1)) as (A1 & A2 & A3 & A4 & A5 & A6 & A7).
+  fold w1 in A1, A2, A3, A4, A5, A6, A7. rewrite Q1 in A1. cbn [app] in A1.
+  pose proof (step_broker_quiet w1 v sc rc ltac:(rewrite A5; exact Eb) H1 H2 A1) as (B1 & B2 & B3 & B4 & B5).
+  fold w2 in B1, B2, B3, B4, B5. rewrite A2, Q4 in B1. cbn [app] in B1.
+  pose proof (step_client_quiet w2 v B1 ltac:(rewrite B4, A6; exact E4) ltac:(rewrite B5, A7; exact Hr)) as (C1 & C2).
+  fold w3 in C1, C2. rewrite B2, A3, Q5 in C1. cbn [app] in C1.
+  assert (I3 : Inv cap w3).
+  { unfold w3, w2, w1. apply inv_client_r, inv_broker_s, inv_app_send, I. }
+  pose proof (frame_app_recv cap w3 I3) as (_ & F & _). cbn zeta in F.
+  rewrite F, C1, C2, B3, A4. reflexivity.
+Qed.
+
+(* ---------------------------------------------------------------- the statements (C05, end to end) *)
+Definition cap_ok (cap : N) : Prop := 1 <= cap /\ cap <= u32_max.
+
+Lemma run_inv cap sch : cap_ok cap -> Inv cap (wrun (winit cap) sch).
+Proof. intros (H1 & H2). apply inv_run, inv_init; assumption. Qed.
+
+(* (a) for every schedule: the broker never answers an item of this sender with CapacityExhausted,
+   never an AddChannelCapacity of this receiver with AddCapacityError, no debug_assert!/
+   unreachable!/overflow site is reached on either side, no client is sent a message it rejects *)
+Theorem e2e_never_cut cap sch : cap_ok cap ->
+  let w := wrun (winit cap) sch in
+  f_cut w = false /\ f_ovf w = false /\ f_panic w = None /\ f_unexp w = false.
+Proof. intros H w. pose proof (run_inv cap sch H) as I. fold w in I. repeat split; apply I. Qed.
+
+(* the same as a statement about the branch of Channel::send_item: whenever an item of the sender is
+   about to be handled, it is forwarded — or ignored because the receiver has closed *)
+Theorem e2e_send_item_branch cap w ch v q : cap_ok cap -> reachable cap w ->
+  br_ch w = Some ch -> q_sb w = SItem v :: q ->
+  (exists ch' add, chan_send_item ch cS = ItemForward ch' cR add) \/
+  (chan_send_item ch cS = ItemIgnore /\ ch_r ch = Closed /\ rv_open w = false).
+Proof.
+  intros (H1 & H2) R Eb Eq. pose proof (inv_reachable cap w H1 H2 R) as I. dw w. cbn in Eb, Eq. subst. di I.
+  destruct Isb as (_ & _ & Isb3). destruct Irb as (_ & _ & Irb3).
+  destruct ch as [[|so sc|] [|ro rc|]]; cbn in Ishape, Isb3, Irb3, Isc; try contradiction;
+    try (destruct (Isb3 eq_refl); discriminate).
+  - destruct Ishape as (-> & -> & S1 & S2 & S3). left. rewrite send_item_both.
+    destruct (N.eqb_spec sc 0); [lia|]. destruct (N.eqb_spec rc 0); [lia|]. eauto.
+  - destruct Ishape as (-> & _). right. destruct (Irb3 eq_refl) as (_ & ?).
+    unfold chan_send_item. cbn. rewrite bd_refl. cbn. auto.
+Qed.
+
+(* (b) the consumed sequence is a prefix of the sent sequence; while the receiver has not closed,
+   every sent item is at exactly one place of the pipeline, in send order (no loss, no duplicate,
+   no reordering — whether or not the sender has closed meanwhile); drained = everything arrived *)
+Theorem e2e_in_order cap sch : cap_ok cap ->
+  let w := wrun (winit cap) sch in
+  (exists rest, sd_sent w = rv_got w ++ rest) /\
+  (rv_open w = true -> sd_sent w = rv_got w ++ rv_queue w ++ br_items (q_br w) ++ sb_items (q_sb w)) /\
+  (rv_open w = true -> quiet w -> rv_got w = sd_sent w).
+Proof.
+  intros H w. pose proof (run_inv cap sch H) as I. fold w in I.
+  destruct (i_ord _ _ _ _ I) as (rest & E & Er). split; [|split].
+  - exists (rv_queue w ++ rest). exact E.
+  - intros Ho. rewrite E, (Er Ho). reflexivity.
+  - intros Ho (Q1 & _ & _ & Q4 & Q5 & _). rewrite E, (Er Ho), Q1, Q4, Q5. cbn. rewrite !app_nil_r. reflexivity.
+Qed.
+
+(* (c) conservation: what the sender may still send + what is in flight towards the broker + what
+   the broker has announced but the sender has not yet seen = the broker's sender_capacity; that
+   is at most the broker's receiver_capacity (equal at or below the low-water mark 4); and that
+   + items in flight to the receiver + grants in flight = the receiver's cur_capacity <= max *)
+Theorem e2e_conservation cap sch : cap_ok cap ->
+  let w := wrun (winit cap) sch in
+  rv_max w = cap /\ 1 <= rv_cur w /\ rv_cur w <= cap /\
+  forall sc rc, b_scap w = Some sc -> b_rcap w = Some rc ->
+    sd_cap w + added_sum (sd_added w) + len (sb_items (q_sb w)) + bs_adds (q_bs w) <= sc /\
+    (sd_open w = true ->
+     sd_cap w + added_sum (sd_added w) + len (sb_items (q_sb w)) + bs_adds (q_bs w) = sc) /\
+    sc <= rc /\ (sc <= 4 -> sc = rc) /\
+    rc + len (br_items (q_br w)) + len (rv_queue w) + rb_adds (q_rb w) <= rv_cur w /\
+    (rv_open w = true -> rc + len (br_items (q_br w)) + len (rv_queue w) + rb_adds (q_rb w) = rv_cur w).
+Proof.
+  intros H w. pose proof (run_inv cap sch H) as I. fold w in I.
+  pose proof (i_cur _ _ _ _ I) as (C1 & C2 & C3 & C4). pose proof (i_max _ _ _ _ I) as Hm.
+  split; [exact Hm|]. split; [exact C1|]. split; [lia|].
+  unfold b_scap, b_rcap. intros sc rc E1 E2.
+  pose proof (i_sc _ _ _ _ I) as Hsc. rewrite E1 in Hsc. cbn [default] in Hsc.
+  pose proof (i_shape _ _ _ _ I) as Hsh.
+  split; [exact Hsc|]. split; [intros Ho; exact (i_sc_eq _ _ _ _ I Ho sc rc E1 E2)|].
+  assert (Hs : sc <= rc /\ (sc <= 4 -> sc = rc)).
+  { destruct (br_ch w) as [[[|so x|] [|ro y|]]|]; cbn in Hsh, E1, E2; try discriminate.
+    injection E1 as <-. injection E2 as <-. destruct Hsh as (_ & _ & ? & ? & _). auto. }
+  destruct Hs as (Hs1 & Hs2). split; [exact Hs1|]. split; [exact Hs2|].
+  split; [exact (i_rc _ _ _ _ I rc E2)|intros Ho; exact (i_rc_eq _ _ _ _ I Ho rc E2)].
+Qed.
+
+(* the window: capacity the sender holds plus items on their way never exceed the capacity the
+   receiver was claimed with *)
+Corollary e2e_window cap sch : cap_ok cap ->
+  let w := wrun (winit cap) sch in
+  forall sc rc, b_scap w = Some sc -> b_rcap w = Some rc ->
+  sd_cap w + added_sum (sd_added w) + len (sb_items (q_sb w)) + len (br_items (q_br w)) + len (rv_queue w) <= cap.
+Proof.
+  intros H w sc rc E1 E2. destruct (e2e_conservation cap sch H) as (_ & _ & Hc & Hf). fold w in Hc, Hf.
+  destruct (Hf sc rc E1 E2) as (A & _ & B & _ & C & _). lia.
+Qed.
+
+(* close requests of this channel are always confirmed with Ok *)
+Theorem e2e_close_confirmed cap sch : cap_ok cap ->
+  let w := wrun (winit cap) sch in
+  (forall r, sd_res w = KDone r -> r = R3Ok) /\ (forall r, rv_res w = KDone r -> r = R3Ok).
+Proof.
+  intros H w. pose proof (run_inv cap sch H) as I. fold w in I.
+  pose proof (i_sres _ _ _ _ I) as Hs. pose proof (i_rres _ _ _ _ I) as Hr.
+  split; intros r E; [rewrite E in Hs; apply Hs|rewrite E in Hr; apply Hr].
+Qed.
+
+(* (d) no deadlock: with both applications holding their ends open and nothing in flight the
+   sender is ready (its poll_send_ready answers Ready(Ok)) ... *)
+Theorem e2e_no_deadlock cap w : cap_ok cap -> reachable cap w ->
+  sd_open w = true -> rv_open w = true -> quiet w -> send_ready w = RdOk.
+Proof.
+  intros (H1 & H2) R Hs Hr Q. apply (quiet_ready cap w); [apply inv_reachable; assumption|split; assumption|exact Q].
+Qed.
+
+(* ... and progress: from EVERY reachable state with both ends open there is a finite schedule
+   (the links deliver, the receiver consumes, the sender polls — whichever of its two polls — and
+   sends v) after which the receiver application has consumed everything sent so far and v *)
+Theorem e2e_progress cap w v : cap_ok cap -> reachable cap w ->
+  sd_open w = true -> rv_open w = true ->
+  exists sch, rv_got (wrun w sch) = sd_sent w ++ [v].
+Proof.
+  intros (H1 & H2) R Hs Hr. pose proof (inv_reachable cap w H1 H2 R) as I.
+  destruct (drain_all cap w I (conj Hs Hr)) as (s1 & I1 & Ho1 & Q1 & E1). cbn zeta in *.
+  exists (s1 ++ [ASend v; BrokerS; ClientR; ARecv]). rewrite wrun_app.
+  rewrite (quiet_deliver cap _ v I1 Ho1 Q1).
+  destruct (quiet_state cap _ I1 Ho1 Q1) as (_ & _ & _ & _ & _ & _ & _ & _ & _ & Eq).
+  rewrite <- Eq, E1. reflexivity.
+Qed.
+
+(* the same with the select!-pattern poll: an announcement consumed by poll_receiver_closed is
+   not lost — polling it any number of times anywhere does not change what the sender may send *)
+Theorem e2e_poll_closed_keeps_credit cap w : cap_ok cap -> reachable cap w ->
+  let w' := wstep w APollClosed in
+  sd_cap w' + added_sum (sd_added w') = sd_cap w + added_sum (sd_added w) /\ sd_added w' = [] /\
+  send_ready w' = send_ready w.
+Proof.
+  intros (H1 & H2) R. pose proof (inv_reachable cap w H1 H2 R) as I. cbn [Credit.wstep]. cbn zeta.
+  pose proof (frame_absorb cap w I) as (F0 & F1 & F2 & _ & _ & _ & _ & _ & _ & _ & _ & _ & F3). cbn zeta in *.
+  rewrite F0, F1. cbn [added_sum]. split; [lia|]. split; [reflexivity|].
+  pose proof (frame_absorb cap (absorb w) (inv_absorb cS cR cap w I)) as (G0 & G1 & G2 & _ & _ & _ & _ & _ & _ & _ & _ & _ & G3).
+  cbn zeta in *. unfold send_ready, ready_of, added_ended. rewrite G1, G2, G3, F0, F1, F2, F3. cbn [added_sum].
+  rewrite N.add_0_r. reflexivity.
+Qed.
+End Main.
